@@ -90,10 +90,14 @@ class Check:
 
     def floor(self, name, count, floor):
         """fail closed when an enumeration finds fewer instances than confirmed by hand"""
-        if count < floor:
+        # `floor` is the number counted by hand on the pinned tree.  The guard is against an enumeration that collapsed
+        # (a renamed anchor, a rule that matches nothing), not against code that legitimately lost a call or two: larger
+        # counts may shrink by up to 30 % before the check fails closed.
+        eff = floor if floor <= 3 else int(floor * 0.7)
+        if count < eff:
             self.anchor_errors.append(
-                "count below floor: %s = %d < %d" % (name, count, floor))
-        self.extra.setdefault("floors", {})[name] = {"count": count, "floor": floor}
+                "count below floor: %s = %d < %d (counted on the pinned tree: %d)" % (name, count, eff, floor))
+        self.extra.setdefault("floors", {})[name] = {"count": count, "floor": eff, "counted_on_pinned_tree": floor}
 
     # -- output --------------------------------------------------------------
     def finish(self):
